@@ -128,6 +128,9 @@ def run(ctx):
     quick = ctx.quick
     PycommError = p.PycommError
     SERVICE_STATUS, EXTEND_CODES = p.SERVICE_STATUS, p.EXTEND_CODES
+    import json as _json
+    import os as _os
+    GOLD_STATUS = set(_json.load(open(_os.path.join(common.VERIF_DIR, "vlib", "data", "code_tables.json"))).get("general_status_codes", []))
 
     def fresh(kind=""):
         if kind.startswith("slc"):
@@ -141,7 +144,14 @@ def run(ctx):
             res.violation(f"empty-error-text:{kind}", f"{kind}: refused with status {status:#x} ext {ext!r} but the error text is {err!r}", wit)
             return
         want = SERVICE_STATUS.get(status)
-        if want is not None:
+        if 0x30 <= status <= 0xCF and status not in GOLD_STATUS:
+            # CIP defines no general status in 0x30-0xCF: whatever a table may hold for such a code is another layer's text (encapsulation
+            # status 0x64 / 0x65 / 0x69), the error must name the status by its hex code
+            if f"{status:02x}" not in err.lower():
+                res.violation(f"error-text-lacks-hex-code:{kind}", f"{kind}: status {status:#x} (reserved range, no CIP text exists) -> error {err!r:.160} lacks the hex code", wit)
+        elif want is None and status in GOLD_STATUS:
+            res.violation(f"error-text-lacks-status:{kind}", f"{kind}: status {status:#x} -> error {err!r:.160}; the library had a text for this status at the pinned commit", wit)
+        elif want is not None:
             if want not in err:
                 res.violation(f"error-text-lacks-status:{kind}", f"{kind}: status {status:#x} -> error {err!r:.160}; expected the table text {want!r:.80}", wit)
         elif f"{status:02x}" not in err.lower():
